@@ -3,6 +3,7 @@
 package mimetype
 
 import (
+	"bytes"
 	"fmt"
 	"strings"
 
@@ -203,6 +204,30 @@ func (g *vfGen) genC08() {
 				if l >= 0 {
 					g.emit(vfOp("walk", []byte(d), l))
 				}
+			}
+		}
+	}
+	// documents with multi-byte characters in strings and keys, through Detect and DetectReader at EVERY limit
+	// (a cut inside a character, between characters, inside an escape)
+	for i := 0; i < g.pick(40, 1500); i++ {
+		words := []string{"caf\u00e9", "\u65e5\u672c\u8a9e", "\U0001F600", "na\u00efve", "\u20ac", "\u0416", "x"}
+		var sb strings.Builder
+		sb.WriteString([]string{"", " ", "\n  "}[g.intn(3)] + "{")
+		k := 1 + g.intn(4)
+		for j := 0; j < k; j++ {
+			if j > 0 {
+				sb.WriteString(",")
+			}
+			sb.WriteString("\"" + words[g.intn(len(words))] + "\":[\"" + words[g.intn(len(words))] + words[g.intn(len(words))] + "\"," + g.jnumber() + "]")
+		}
+		sb.WriteString("}")
+		d := []byte(sb.String())
+		g.emit(vfOp("jdoc", d))
+		open := bytes.IndexByte(d, '{')
+		for l := open + 1; l <= len(d)+1; l++ {
+			g.emit(vfOp("walk", d, l))
+			if l%3 == 0 {
+				g.emit(vfOp("reader", l, d, "~", 0, -1))
 			}
 		}
 	}
